@@ -104,7 +104,7 @@ def run(ctx):
                                          constants=len(big['parsed']['defs'][0]['consts']) if big['parsed']['defs'] else 0,
                                          bytes=big['nbytes'])
     ctx.cov['evaluations'] = len(progs)
-    ctx.cov['programs'] = dict(tlc=ntlc, random=nrand, invalid_inputs=ninv, names=len(names), big=2 * len(sizes),
+    ctx.cov['program_sources'] = dict(tlc=ntlc, random=nrand, invalid_inputs=ninv, names=len(names), big=2 * len(sizes),
                                raised=sum(r['raised'] for r in recs))
     s = recs[ntlc + 3]
     ctx.sample(dict(program=s['prog'], raised=s['raised'], units=[[u['c'], u['r'], u['sp'], u['ins']] for d in
